@@ -46,7 +46,7 @@ func isSelf(e M) bool { return e != nil && opOf(e) == "SELF" }
 var unaryNames = map[string]string{"SELECT": "select", "MAP": "map", "FILTER": "filter", "HAS": "has", "ANY_CONDITION": "any_c",
 	"ALL_CONDITION": "all_c", "UNIQUE_BY": "unique_by", "GROUP_BY": "group_by", "WITH_ENTRIES": "with_entries", "JOIN": "join",
 	"SPLIT": "split", "SORT_BY": "sort_by", "MAP_VALUES": "map_values", "DELETE_CHILD": "del", "PICK": "pick", "OMIT": "omit",
-	"SORT_KEYS": "sort_keys", "EXPLODE": "explode", "WITH": "with", "DEL_PATHS": "delpaths", "ERROR": "error"}
+	"SORT_KEYS": "sort_keys", "EXPLODE": "explode", "DEL_PATHS": "delpaths", "ERROR": "error"}
 var nullaryNames = map[string]string{"LENGTH": "length", "KEYS": "keys", "REVERSE": "reverse", "UNIQUE": "unique", "ANY": "any", "ALL": "all",
 	"TO_ENTRIES": "to_entries", "FROM_ENTRIES": "from_entries", "NOT": "not", "SORT": "sort", "MIN": "min", "MAX": "max",
 	"GET_PATH": "path", "GET_KEY": "key", "GET_PARENT": "parent",
@@ -147,6 +147,8 @@ func exprText(e M) string {
 			return "strenv(" + e["name"].(string) + ")"
 		}
 		return "env(" + e["name"].(string) + ")"
+	case "WITH":
+		return "with(" + exprText(sub(e, "l")) + "; " + exprText(sub(e, "r")) + ")"
 	case "SET_PATH":
 		return "setpath(" + exprText(sub(e, "l")) + "; " + exprText(sub(e, "r")) + ")"
 	case "REDUCE":
